@@ -112,6 +112,10 @@ def run(res, tier, seed):
     for sc, fmt, scid in (("noaa17", "gac_klm", 6), ("noaa18", "lac_klm", 7), ("noaa12", "gac_pod", 5)):
         iv = rng.choice(TSM_AFFECTED_INTERVALS_KLM[2])
         plans.append((sc, fmt, scid, iv, "inside"))
+    # the spacecraft codes are only unique within a family: POD code 4 is NOAA-7 (KLM code 4: NOAA-15), POD code 2 is NOAA-6
+    # (KLM code 2: NOAA-16) -- passes of those spacecraft inside the other family's intervals are never masked
+    plans.append(("noaa7", "gac_pod", 4, rng.choice(TSM_AFFECTED_INTERVALS_KLM[4]), "inside"))
+    plans.append(("noaa6", "gac_pod", 2, rng.choice(TSM_AFFECTED_INTERVALS_KLM[2]), "inside"))
     # NOAA-14 with the clock-drift correction on (real table): the gate must follow the REPORTED (corrected) times whatever
     # accessor is called first -- here the channels are requested before any coordinate
     drift_iv = [iv for iv in TSM_AFFECTED_INTERVALS_POD[3] if 1996 <= iv[0].year <= 2002]
